@@ -83,6 +83,30 @@ func handle(args []string) string {
 			return "x" + wire.Hex([]byte(dec)) + " E"
 		}
 		return "x" + wire.Hex([]byte(dec)) + " P x" + wire.Hex([]byte(u.Scheme)) + " x" + wire.Hex([]byte(u.Hostname()))
+	case args[0] == "urlparse2" && len(args) == 2:
+		// The same, and what url.Parse makes of the string printed from the first parse once the client_ip
+		// query is set (proxy datachannelHandler: q.Set; u.RawQuery = q.Encode(); Dial(u.String())):
+		// x<raw'>;E | x<raw'>;P;x<scheme>;x<hostname>;E | x<raw'>;P;x<scheme>;x<hostname>;P;x<scheme2>;x<hostname2>
+		raw := str(args[1])
+		enc, _ := json.Marshal(raw)
+		var dec string
+		if err := json.Unmarshal(enc, &dec); err != nil {
+			panic(err)
+		}
+		head := "x" + wire.Hex([]byte(dec))
+		u, err := url.Parse(dec)
+		if err != nil {
+			return head + ";E"
+		}
+		first := head + ";P;x" + wire.Hex([]byte(u.Scheme)) + ";x" + wire.Hex([]byte(u.Hostname()))
+		q := u.Query()
+		q.Set("client_ip", "192.0.2.9")
+		u.RawQuery = q.Encode()
+		u2, err := url.Parse(u.String())
+		if err != nil {
+			return first + ";E"
+		}
+		return first + ";P;x" + wire.Hex([]byte(u2.Scheme)) + ";x" + wire.Hex([]byte(u2.Hostname()))
 	}
 	return "!badcase"
 }
